@@ -355,6 +355,33 @@ func init() {
 				}
 			}
 		}
+		// the full state is always handed out: nothing is answered before the states were serialised, and
+		// "nothing" (nil) is answered only when serialising failed — not depending on whether the exchange is
+		// a join or on what is queued (a periodic exchange is what repairs lost gossip)
+		for _, ret := range (&Walk{Fn: ls, Barrier: func(in ssa.Instruction) bool { return in.Block() == ll.Header }}).FromEntry().Returns() {
+			o.Fail("local-unconditional", "LocalState can answer without serialising the states", ret)
+		}
+		if pm := e.Calls(ls, "proto.Marshal"); o.Check(len(pm) == 1, "local-encode", "LocalState must encode the collected parts once", fnFirst(ls)) {
+			pOK := L("("+e.X(ls, pm[0].(*ssa.Call))+"#1 == nil)", true)
+			for _, in := range AllInstrs(ls) {
+				ret, ok := in.(*ssa.Return)
+				if !ok || ret.Block() == ls.Recover {
+					continue
+				}
+				for _, v := range e.ValStrs(ls, e.ValsUnder(nil, ret.Results[0])) {
+					if v == "nil" {
+						o.Check(e.OnlyUnder(ret, mOK.Neg(), pOK.Neg()), "local-nil", "LocalState answers nothing although serialising succeeded", ret)
+					} else {
+						o.Check(v == e.X(ls, pm[0].(*ssa.Call))+"#0", "local-result", "LocalState answers "+clip(v)+", not the encoded full state", ret)
+					}
+				}
+			}
+		}
+		// likewise every decodable remote state is merged, whatever the kind of exchange
+		uOK := L("("+e.X(fn, fsUm.(*ssa.Call))+" == nil)", true)
+		for _, ret := range (&Walk{Fn: fn, Cut: e.CutContradicting(uOK), Barrier: func(in ssa.Instruction) bool { return in.Block() == l.Header }}).FromEntry().Returns() {
+			o.Fail("merge-unconditional", "MergeRemoteState can return without merging a decodable remote state", ret)
+		}
 		if o.Check(app != nil && len(inLoop) > 0, "local-append", "parts are not collected", nil) {
 			o.Check(!loopBackWithout(o, ll, IsInstr(inLoop...), e.CutContradicting(mOK)), "local-skip", "a state can be left out of the full state", app)
 		}
